@@ -375,6 +375,8 @@ class Interp(object):
     def node_field(self, obj, name, default=PROCEED):
         ctx = self.ctx
         d = ctx.data(obj)
+        if name == '_fields' and len(d.tags) == 1:
+            return tuple(tag_universe()['cls'][list(d.tags)[0]]._fields)
         if self.policy is not None:
             r = self.policy.attr(self, obj, name)
             if r is not PROCEED:
